@@ -119,7 +119,8 @@ pub fn run() -> i32 {
         let label = format!("threads={threads} single_file={single} bufcap={:?}", bufcap);
         // fault kinds: sticky (every write beyond the limit fails) and, with the capped buffer, transient
         // (exactly one write fails, later ones succeed: quota raised / space freed)
-        let jobs: Vec<(u64, bool)> = offsets.iter().map(|&n| (n, false)).chain(offsets.iter().filter(|_| bufcap.is_some()).map(|&n| (n, true))).collect();
+        let with_transient = bufcap.is_some() && (th || (!single && step == 1));
+        let jobs: Vec<(u64, bool)> = offsets.iter().map(|&n| (n, false)).chain(offsets.iter().filter(|_| with_transient).map(|&n| (n, true))).collect();
         par_for(jobs.len(), ncpu(), |i| {
             let (n, transient) = jobs[i];
             let out = format!("{}/o{}-{}.agc", dir.display(), i, n);
